@@ -20,7 +20,8 @@
 (*   [t |-> "X"] unknown element, [t |-> "T"] stray text, [t |-> "C"]      *)
 (*   comment, [t |-> "DUP", id] node with a duplicated id attribute,       *)
 (*   [t |-> "ENT"] node whose id holds an unknown entity,                  *)
-(*   [t |-> "TRUNC"] the document stops inside a tag,                      *)
+(*   [t |-> "TRUNC"] the document stops (inside a tag, data, a comment ..),  *)
+(*   [t |-> "NU"]    a node whose id consists of multi-byte characters,      *)
 (*   [t |-> "BADEND"] a mismatched end tag                                 *)
 (* A document is <graphml> tokens </graphml>.                              *)
 (***************************************************************************)
@@ -78,7 +79,7 @@ ScanTok(st, tk) ==
          ELSE IF tk.form = "othername" THEN st
          ELSE [st EXCEPT !.lenient = TRUE]
     [] tk.t \in {"X", "T", "C", "/G"} -> st
-    [] tk.t \in {"DUP", "ENT", "TRUNC", "BADEND"} -> [st EXCEPT !.lenient = TRUE]
+    [] tk.t \in {"DUP", "ENT", "TRUNC", "BADEND", "NU"} -> [st EXCEPT !.lenient = TRUE]
 
 RECURSIVE Scan(_, _)
 Scan(st, toks) == IF toks = <<>> THEN st ELSE Scan(ScanTok(st, Head(toks)), Tail(toks))
